@@ -13,18 +13,31 @@ def gen(rng, i):
     if rng.random() < 0.3:
         kinds.append("cos")
     layers = [dict(c01.KINDS[k]) for k in kinds]
+    base = rng.choice(["sync", "sync", "pool"])
+    if i % 3 == 0:
+        # timers that do fire: a timeout below other layers expires futures while clients cancel, wait and shut down
+        # at the same instants (the expiry cancels bottom-up what a client cancels top-down)
+        base = "pool"
+        layers.insert(rng.randrange(0, len(layers) + 1), {"t": "timeout", "T": rng.choice([50, 100, 100])})
+        if rng.random() < 0.4:
+            layers.insert(rng.randrange(0, len(layers) + 1), {"t": "cos"})
     n = rng.choice([1, 2, 3])
     nthreads = rng.choice([1, 2, 3])
     subs = []
     for j in range(n):
-        subs.append({"S": rng.choice([0, 0, 10, 100]), "script": rng.choice([["V"], ["E", "V"], ["F"]]),
-                     "dur": rng.choice([0, 30, 100]), "thread": j % nthreads, "cb": rng.random() < 0.3,
-                     "nested": rng.random() < 0.35, "nested_cb": rng.random() < 0.25, "wait": rng.random() < 0.4,
-                     "K": rng.sample([0, 50, 100, 150], rng.choice([0, 0, 1]))})
+        sb = {"S": rng.choice([0, 0, 10, 100]), "script": rng.choice([["V"], ["E", "V"], ["F"]]),
+              "dur": rng.choice([0, 30, 100, 300] if i % 3 == 0 else [0, 30, 100]), "thread": j % nthreads,
+              "cb": rng.random() < 0.3,
+              "nested": rng.random() < 0.35, "nested_cb": rng.random() < 0.25, "wait": rng.random() < 0.4,
+              "K": rng.sample([0, 50, 100, 150], rng.choice([0, 0, 1]))}
+        if i % 3 == 0 and rng.random() < 0.3 and layers:
+            # somebody else cancels a future inside the stack (bottom-up cancellation)
+            sb["xcancel"] = {"tap": rng.randrange(1, len(layers) + 1), "at": rng.choice([0, 50, 100, 150])}
+        subs.append(sb)
     sh = None
     if rng.random() < 0.5:
-        sh = {"at": rng.choice([100, 100, 400]), "wait": rng.random() < 0.7, "repeat": 1}
-    return {"base": rng.choice(["sync", "sync", "pool"]), "workers": rng.choice([1, 2]), "layers": layers, "subs": subs,
+        sh = {"at": rng.choice([100, 100, 400, 50, 150]), "wait": rng.random() < 0.7, "repeat": 1}
+    return {"base": base, "workers": rng.choice([1, 2]), "layers": layers, "subs": subs,
             "shutdown": sh, "horizon": 60000}
 
 
@@ -40,7 +53,11 @@ def run(ck):
         p = gen(rng, i)
         strat = ["random", rng.randrange(10 ** 9), 0.5] if i % 3 else ["pct", rng.randrange(10 ** 9), 4, 300]
         tasks.append({"scen": "stack", "params": p, "strat": strat, "gran": "line" if i % 6 == 0 else "sync",
+                      "lock_log": True,
                       "facts": {"base": p["base"], "nested": any(s.get("nested") or s.get("nested_cb") for s in p["subs"]),
                                 "retry": any(l["t"] == "retry" for l in p["layers"])}})
-    ck.run_and_validate(tasks, TRACE)
+    pairs = ck.run_and_validate(tasks, TRACE)
+    # the lock programs of those executions, interleaved exhaustively by TLC (spec/LockCases.tla); candidate cycles
+    # are steered towards in the real code and only a deadlock that really happens there is reported
+    ck.lock_cycles(pairs, TRACE)
     ck.assumptions += ["shutdown is called by a single thread", "every scripted callable terminates; horizon 60 s virtual"]
